@@ -170,6 +170,12 @@ def _piece(expr):
         return Piece("unknown", s.nsrc, node=s)
     if "->" in p:
         return Piece("field", p.split("->")[-1], node=s)
+    # a file-scope constant string (`static const char NAME[] = "..."`) stands for its text
+    gv = getattr(getattr(s, "tu", None), "vars", {}).get(p)
+    if gv is not None and "const" in (gv.type or "") and gv.children:
+        iv = gv.children[-1].strip(casts=True)
+        if iv.kind == "StringLiteral":
+            return Piece("lit", iv.strval(), node=s)
     return Piece("var", p, node=s)
 
 
@@ -545,6 +551,18 @@ def handle_states(fn, fields, obj=OBJ, init=None, alias=None, depth=0):
             out[k] = _join_val(a.get(k, TOP), b.get(k, TOP))
         return out
 
+    # a handle whose address is stored (a table of pointers to the handles, a local alias) can be closed or set through that
+    # pointer: the typestate below would not see it - not decided rather than "still open"
+    for n in fn.walk():
+        if n.kind == "UnaryOperator" and n.opcode == "&" and n.children and field_of(n.children[0]):
+            par = n.parent
+            while par is not None and par.kind in ("ParenExpr", "ImplicitCastExpr", "CStyleCastExpr"):
+                par = par.parent
+            if par is not None and par.kind == "UnaryOperator" and par.opcode == "*":
+                continue        # `*&obj->field` (a helper's `*parameter` after inlining) is the field itself
+            if not (par is not None and par.kind == "CallExpr"):
+                raise AnalysisError("%s: the address of handle `%s` is stored (line %s): closes and stores through the pointer are not "
+                                    "followed by the typestate analysis" % (fn.name, field_of(n.children[0]), n.line))
     init = dict(init) if init is not None else {f: TOP for f in fields}
     IN = g.solve(init, transfer, join, edge)
     events = []
